@@ -118,6 +118,10 @@ TEMPLATES = [
 ]
 
 
+ADDRESSING = {"index", "slice", "slice_open", "index_assign", "index_opassign", "index2_assign", "slice_assign", "every_slice", "every_slice_op",
+              "update", "pop_index", "remove", "remove_slice", "swap_index"}
+
+
 # ---- a caught error leaves no trace: SETUP; try FAIL catch _ -> null; OBSERVE  ==  SETUP; OBSERVE   (differential, no expected values)
 AFT_SETUP = ('struct Foo (a, b); x := [1, [2], 3]; d := {1: [2], "k": 3}; s := "héllo"; q := Foo(1, [2]); v := V(1, 2); st := 1 to 3; n := 5; '
              'g := \\w -> (x[0] += w; w); cnt := 0; mf := memoize(\\w -> (if (w == 2) throw w else w)); __internal_push 10; __internal_push 20; '
@@ -202,7 +206,7 @@ def cases(tier, shard, nshards):
                 body = form.replace("{S}", subj).replace("{P}", pat)
                 yield Case(wrap(body), {"k": "stmt", "fn": "regex", "args": [pat, subj], "risky": False}, pre=PRE, opts={"step_ms": 3000, "fuel": 20000, "compact": True})
     tpool = QUICK if tier == "quick" else [n for n in names if n not in ("negzero", "emptybytes", "defdict", "emptystream", "builtin")]
-    t3 = SUB3_QUICK + ["i64max", "dict", "uchar", "ustr"] if tier == "quick" else SUB3 + ["i64max", "bigint", "vector", "badutf8", "ustr"]
+    t3 = SUB3_QUICK + ["i64max", "dict", "uchar", "ustr", "stream"] if tier == "quick" else SUB3 + ["i64max", "bigint", "vector", "badutf8", "ustr"]
     for (name, tpl, holes) in TEMPLATES:
         vals = tpool if holes <= 2 else t3
         for t in itertools.product(vals, repeat=holes):
@@ -211,7 +215,9 @@ def cases(tier, shard, nshards):
                 continue
             fill = dict(zip("ABC", ["p_" + a for a in t]))
             body = tpl.format(**fill)
-            risky = any(a in RISKY for a in t)
+            # in an addressing statement a huge integer is a position, not an amount: bounds are clamped or refused, so only an
+            # infinite operand makes such a statement resource-bound
+            risky = ("infstream" in t) if name in ADDRESSING else any(a in RISKY for a in t)
             opts = {"step_ms": 200 if risky else 3000, "fuel": 20000, "compact": True, "hang_retry": not risky}
             yield Case(wrap(body), {"k": "stmt", "fn": name, "args": list(t), "risky": risky}, pre=PRE, opts=opts)
 
